@@ -5,5 +5,6 @@ EXTENDS SmtLibScript, Json
 SA == INSTANCE StackAlphabets
 SimScriptCmds == SA!ScriptCmds
 SimSolverCmds == SA!SolverCmds
+SimSlsCmds == SA!SlsCmds
 Emit == Len(hist) = MaxLen => PrintT(ToJson(hist))
 =============================================================================
